@@ -22,7 +22,7 @@ RULE = ("Route tables of 1-4 routes built from segment templates (literals 'a','
         "typed route; distinct = (table, path).")
 ASSUMPTIONS = [
     "when a path binds to a route in more than one way (e.g. '{x}-{y:int}') only route choice is compared, not parameter values",
-    "on WSGI the router sees PATH_INFO as the interface defines it (Latin-1 view of the bytes); the model is applied to that string (the WSGI/ASGI difference for non-ASCII paths is C04's business)",
+    "on WSGI PATH_INFO is the Latin-1 view of the path bytes; the model is applied to the UTF-8 text those bytes stand for (as on ASGI)",
     "numbers stay below CPython's 4300-digit int limit (longer ones belong to C12)",
 ]
 
@@ -129,7 +129,7 @@ def dispatch_wsgi(routes, path, stale=False):
     if stale:  # e.g. left behind by an outer router
         env["PATH_PARAMS"] = {"stale": "outer"}
     res = drivers.run_wsgi(router, env)
-    return env["PATH_INFO"], rec.hit, res.code, res.exc
+    return drivers.wsgi_text(env["PATH_INFO"]), rec.hit, res.code, res.exc
 
 
 def dispatch_asgi(routes, path, stale=False):
